@@ -88,6 +88,7 @@ theorem observe_withLim {e e' : Enf} {ev : Raw} (lim : Limits) (ho : EnfOk e) (h
     rw [pro_of_not_pd ev (by simpa [withLim] using hpd)] at hs
     simp only [Within, withLim, next, hpd, Bool.false_and, Bool.false_eq_true, if_false] at hw
     cases br <;> simp only [BreachSpec, withLim] at hs
+    case ratio a n => rw [hpd] at hs; cases hs.1
     case events n => omega
     case aliases n => obtain ⟨h1, h3, h4⟩ := hs; simp only [h1, b2n, if_true] at hw; omega
     case anchors n => omega
